@@ -533,3 +533,16 @@ def _pick_list(src, objs):
 
 def alarm_list_index_not_narrowed(src):
     _pick_list(src, [_Reader(), _Writer()])
+
+
+# ---- attributes of module objects are module-level state ------------------------------------------------------------------
+from . import basic as _basic_mod  # noqa: E402
+
+
+def galarm_module_attribute_store(src):
+    _basic_mod.SOME_SETTING = 1
+
+
+def alarm_module_attribute_roundtrip(src):
+    _basic_mod.STASH = src
+    _basic_mod.STASH.width = 1
